@@ -323,6 +323,8 @@ mpf_ui_sub (mpf_ptr r, mpir_ui u, mpf_srcptr v)
 
  done:
   r->_mp_size = negate ? -rsize : rsize;
+  if (rsize == 0)
+    uexp = 0;
   r->_mp_exp = uexp;
   TMP_FREE;
 }
